@@ -15,6 +15,7 @@
 (*   Exit     in the same call just BEFORE it returns        = Handle      *)
 (*   Answered / Failed by the client AFTER it read the response / error    *)
 (*   StopCall before Close()/Stop() is called; StopReturn after it returned*)
+(*   Stop2Call / Stop2Return the same for a second, overlapping call       *)
 (*   AllowCheck in PeerStore.Banned (under s.mu), Handshake in             *)
 (*            PeerStore.AddPeer (before the insert), Refused/Rejected/     *)
 (*            Hangup by the remote                                         *)
@@ -36,8 +37,9 @@ N == Len(Log)
 VARIABLES
     l,          \* next line to consume
     stopCalled, \* a StopCall line has been consumed: Close's statements may run
+    stop2Called,\* a Stop2Call line has been consumed: the second, overlapping Close/Stop may take the lock
     hung        \* connection attempts whose remote has hung up
-tvars == <<vars, l, stopCalled, hung>>
+tvars == <<vars, l, stopCalled, stop2Called, hung>>
 
 Ev == Log[l]
 More == l <= N
@@ -63,6 +65,9 @@ Blocked(p) == loopOn[p] /\ InLoop(p) = {} /\ Arrived(p) # {} /\ sem[p] >= lim.ma
 NeedsLoop(p, r) == st[p][r] \in {"arrived", "gotpeer", "gotsub"}
 First(q, r) == \A r2 \in RpcIds : r2 < r => st[q][r2] # st[q][r]
 
+LaterOk(t) == \E j \in (l + 1)..N : /\ Log[j].op = "ThAdd" /\ Log[j].p = t /\ Log[j].ok
+                                     /\ \A i \in l..j : Log[i].op # "Reset"
+JoinPending == \E t \in Threads : th[t] = "idle" /\ LaterOk(t)
 \* (lclosed: Run's teardown may already have closed this peer's transport)
 FailedNow(p, r) == out[p][r] \in FailOutcomes \/ lclosed \/ gone[p] \/ ~loopOn[p]
 QuietNow == Quiescent /\ (\A s \in Subnets : sub[s] = 0) /\ (\A p \in Peers : sem[p] = 0)
@@ -70,6 +75,7 @@ LineEnabled ==
     CASE Ev.op = "Enter"      -> st[Ev.p][Ev.r] = "spawned" /\ stop = "no"
       [] Ev.op = "Failed"     -> FailedNow(Ev.p, Ev.r)
       [] Ev.op = "StopReturn" -> G_StopReturn
+      [] Ev.op = "Stop2Return" -> G_Stop2Return
       [] Ev.op = "Quiesce"    -> QuietNow
       [] Ev.op = "ThAdd"      -> (Ev.ok <=> stop = "no")
       [] Ev.op \in ConnOps    -> FALSE
@@ -109,25 +115,26 @@ TowardsQuiet ==
 
 HiddenRpc ==
     /\ More /\ ~LineEnabled
-    /\ UNCHANGED <<l, stopCalled, hung>>
+    /\ UNCHANGED <<l, stopCalled, stop2Called, hung>>
     /\ \/ Ev.op = "Enter" /\ stop = "no" /\ TowardsRpc(Ev.p, Ev.r)
        \/ Ev.op = "Failed" /\ \/ TowardsRpc(Ev.p, Ev.r)
                               \/ (stop # "no" /\ st[Ev.p][Ev.r] = "spawned" /\ TgAdd(Ev.p, Ev.r))
                               \/ LoopExit(Ev.p)
-       \/ Ev.op = "StopReturn" /\ TowardsStopReturn
+       \/ Ev.op \in {"StopReturn", "Stop2Return"} /\ TowardsStopReturn
        \/ Ev.op = "Quiesce" /\ TowardsQuiet
 
 \* Close's two statements, Run's teardown, Stop's wait: once Close has been called
 HiddenStop ==
     /\ More /\ stopCalled /\ ~LineEnabled
-    /\ Ev.op \in {"Failed", "StopReturn", "Quiesce", "ThAdd"} \cup ConnOps
-    /\ UNCHANGED <<l, stopCalled, hung>>
-    /\ CloseListener \/ StopBegin \/ StopWait \/ ClosePeers \/ RunExit
+    /\ ~(Ev.op = "ThAdd" /\ stop = "no" /\ JoinPending)
+    /\ Ev.op \in {"Failed", "StopReturn", "Stop2Return", "Quiesce", "ThAdd"} \cup ConnOps
+    /\ UNCHANGED <<l, stopCalled, stop2Called, hung>>
+    /\ CloseListener \/ StopBegin \/ StopWait \/ ClosePeers \/ RunExit \/ (stop2Called /\ Stop2Begin)
 
 \* connection lifecycle: the insert, runPeer's start and the removal are not visible
 HiddenConn ==
-    /\ More /\ (Ev.op \in ConnOps \/ (Ev.op = "StopReturn" /\ ~LineEnabled))
-    /\ UNCHANGED <<l, stopCalled, hung>>
+    /\ More /\ (Ev.op \in ConnOps \/ (Ev.op \in {"StopReturn", "Stop2Return"} /\ ~LineEnabled))
+    /\ UNCHANGED <<l, stopCalled, stop2Called, hung>>
     /\ \E c \in Conns :
          \/ AddPeer(c) \/ RunPeer(c)
          \/ ((hung[c] \/ dead[c]) /\ RemovePeer(c))
@@ -138,7 +145,7 @@ Skip == UNCHANGED vars
 
 TReset ==
     /\ Step("Reset")
-    /\ stopCalled' = FALSE
+    /\ stopCalled' = FALSE /\ stop2Called' = FALSE
     /\ hung' = [c \in Conns |-> FALSE]
     /\ lim' = [maxInflight |-> Ev.lim.maxInflight, maxSubnet |-> Ev.lim.maxSubnet, maxIn |-> Ev.lim.maxIn,
                maxOut |-> Ev.lim.maxOut, sub |-> [p \in Peers |-> Ev.lim.sub[p]]]
@@ -150,61 +157,73 @@ TReset ==
     /\ gone' = [p \in Peers |-> FALSE]
     /\ runLive' = IF WithRun THEN 1 ELSE 0
     /\ tgLive' = Ev.n + runLive'
-    /\ stop' = "no" /\ peersClosed' = FALSE /\ lclosed' = FALSE
+    /\ stop' = "no" /\ stop2' = "idle" /\ peersClosed' = FALSE /\ lclosed' = FALSE
     /\ dead' = [c \in Conns |-> FALSE]
     /\ conn' = [c \in Conns |-> "idle"]
     /\ th' = [t \in Threads |-> "idle"]
     /\ act' = Lbl("Init", "", 0)
 
-TArrive == Step("Arrive") /\ Arrive(Ev.p, Ev.r) /\ UNCHANGED <<stopCalled, hung>>
-TEnter  == Step("Enter") /\ TgAdd(Ev.p, Ev.r) /\ st'[Ev.p][Ev.r] = "handling" /\ UNCHANGED <<stopCalled, hung>>
-TExit   == Step("Exit") /\ Handle(Ev.p, Ev.r) /\ UNCHANGED <<stopCalled, hung>>
-TAnswered == Step("Answered") /\ out[Ev.p][Ev.r] \in {"answered", "maybe"} /\ Skip /\ UNCHANGED <<stopCalled, hung>>
+TArrive == Step("Arrive") /\ Arrive(Ev.p, Ev.r) /\ UNCHANGED <<stopCalled, stop2Called, hung>>
+TEnter  == Step("Enter") /\ TgAdd(Ev.p, Ev.r) /\ st'[Ev.p][Ev.r] = "handling" /\ UNCHANGED <<stopCalled, stop2Called, hung>>
+TExit   == Step("Exit") /\ Handle(Ev.p, Ev.r) /\ UNCHANGED <<stopCalled, stop2Called, hung>>
+TAnswered == Step("Answered") /\ out[Ev.p][Ev.r] \in {"answered", "maybe"} /\ Skip /\ UNCHANGED <<stopCalled, stop2Called, hung>>
 \* the client saw the stream die: the RPC was dropped/refused/lost, or the whole transport is gone
 TFailed ==
     /\ Step("Failed")
     /\ FailedNow(Ev.p, Ev.r)
-    /\ Skip /\ UNCHANGED <<stopCalled, hung>>
-TDisconnect == Step("Disconnect") /\ Disconnect(Ev.p) /\ UNCHANGED <<stopCalled, hung>>
+    /\ Skip /\ UNCHANGED <<stopCalled, stop2Called, hung>>
+TDisconnect == Step("Disconnect") /\ Disconnect(Ev.p) /\ UNCHANGED <<stopCalled, stop2Called, hung>>
 TQuiesce ==
     /\ Step("Quiesce")
     /\ QuietNow
     /\ Ev.n = 0            \* the real counters, read through the hook
-    /\ Skip /\ UNCHANGED <<stopCalled, hung>>
+    /\ Skip /\ UNCHANGED <<stopCalled, stop2Called, hung>>
 
 \* Close() is about to be called.  In an RPC run its first statement (the listener's close) is taken at once:
 \* it commutes with everything an RPC run logs (it only makes later lines easier to explain); in a connection
 \* run it decides whether an attempt is still accepted, so there it stays a hidden step.
 TStopCall ==
-    /\ Step("StopCall") /\ stopCalled' = TRUE /\ UNCHANGED hung
+    /\ Step("StopCall") /\ stopCalled' = TRUE /\ UNCHANGED <<stop2Called, hung>>
     /\ IF Ev.fam = "rpc" /\ G_CloseListener THEN CloseListener ELSE Skip
-TStopReturn == Step("StopReturn") /\ StopReturn /\ UNCHANGED <<stopCalled, hung>>
+TStopReturn == Step("StopReturn") /\ StopReturn /\ UNCHANGED <<stopCalled, stop2Called, hung>>
+\* a second Close()/Stop() on the same object, called while the first may still be waiting (logged before the
+\* call / after it returned, like the first); which of the two closes the channel is not visible and immaterial
+TStop2Call == Step("Stop2Call") /\ stop2Called' = TRUE /\ Skip /\ UNCHANGED <<stopCalled, hung>>
+TStop2Return == Step("Stop2Return") /\ Stop2Return /\ UNCHANGED <<stopCalled, stop2Called, hung>>
 
+\* A successful Add is logged AFTER it happened (when Add has returned / when the handler reaches the gate), so
+\* its line may come after the line of a refusal that really happened later.  Before a refusal line forces the
+\* group closed, every thread whose "ok" line is still to come in this run joins (it did join before the close).
+HiddenJoin ==
+    /\ More /\ Ev.op = "ThAdd" /\ ~Ev.ok /\ stop = "no"
+    /\ UNCHANGED <<l, stopCalled, stop2Called, hung>>
+    /\ \E t \in Threads : th[t] = "idle" /\ LaterOk(t) /\ ThAdd(t)
 TThAdd ==
-    /\ Step("ThAdd") /\ ThAdd(Ev.p)
-    /\ th'[Ev.p] = IF Ev.ok THEN "live" ELSE "refused"
-    /\ UNCHANGED <<stopCalled, hung>>
-TThDone == Step("ThDone") /\ ThDone(Ev.p) /\ UNCHANGED <<stopCalled, hung>>
+    /\ Step("ThAdd")
+    /\ \/ ThAdd(Ev.p) /\ th'[Ev.p] = (IF Ev.ok THEN "live" ELSE "refused")
+       \/ Ev.ok /\ th[Ev.p] = "live" /\ Skip        \* joined above
+    /\ UNCHANGED <<stopCalled, stop2Called, hung>>
+TThDone == Step("ThDone") /\ ThDone(Ev.p) /\ UNCHANGED <<stopCalled, stop2Called, hung>>
 
-TAllowCheck == Step("AllowCheck") /\ AllowCheck(Ev.p) /\ UNCHANGED <<stopCalled, hung>>
+TAllowCheck == Step("AllowCheck") /\ AllowCheck(Ev.p) /\ UNCHANGED <<stopCalled, stop2Called, hung>>
 \* the listener did not take the connection at all
-TRefused == Step("Refused") /\ Refuse(Ev.p) /\ UNCHANGED <<stopCalled, hung>>
+TRefused == Step("Refused") /\ Refuse(Ev.p) /\ UNCHANGED <<stopCalled, stop2Called, hung>>
 \* the syncer closed the connection before the handshake
-TRejected == Step("Rejected") /\ conn[Ev.p] = "rejected" /\ Skip /\ UNCHANGED <<stopCalled, hung>>
-THandshake == Step("Handshake") /\ Handshake(Ev.p) /\ UNCHANGED <<stopCalled, hung>>
-THangup == Step("Hangup") /\ hung' = [hung EXCEPT ![Ev.p] = TRUE] /\ Skip /\ UNCHANGED stopCalled
+TRejected == Step("Rejected") /\ conn[Ev.p] = "rejected" /\ Skip /\ UNCHANGED <<stopCalled, stop2Called, hung>>
+THandshake == Step("Handshake") /\ Handshake(Ev.p) /\ UNCHANGED <<stopCalled, stop2Called, hung>>
+THangup == Step("Hangup") /\ hung' = [hung EXCEPT ![Ev.p] = TRUE] /\ Skip /\ UNCHANGED <<stopCalled, stop2Called>>
 
-TraceInit == Init /\ l = 1 /\ stopCalled = FALSE /\ hung = [c \in Conns |-> FALSE]
+TraceInit == Init /\ l = 1 /\ stopCalled = FALSE /\ stop2Called = FALSE /\ hung = [c \in Conns |-> FALSE]
 
 TraceNext ==
     \/ TReset \/ TArrive \/ TEnter \/ TExit \/ TAnswered \/ TFailed \/ TDisconnect \/ TQuiesce
-    \/ TStopCall \/ TStopReturn \/ TThAdd \/ TThDone
+    \/ TStopCall \/ TStopReturn \/ TStop2Call \/ TStop2Return \/ TThAdd \/ TThDone
     \/ TAllowCheck \/ TRefused \/ TRejected \/ THandshake \/ THangup
-    \/ HiddenRpc \/ HiddenStop \/ HiddenConn
+    \/ HiddenRpc \/ HiddenStop \/ HiddenConn \/ HiddenJoin
 
 TraceSpec == TraceInit /\ [][TraceNext]_tvars
 
-tview == <<view, l, stopCalled, hung>>
+tview == <<view, l, stopCalled, stop2Called, hung>>
 
 \* high-water mark of consumed lines (needs -workers 1)
 ASSUME TLCSet(1, 0)
